@@ -5,10 +5,13 @@ reader actors; the wire of every connection must equal the concatenation of the 
 pipeline produces in the sequential single-thread world, and the application log must show each
 request once, in order, never overlapping on one connection.
 """
+import sys
+
 from hypothesis import strategies as st
 
 from .. import case as C
 from .. import schedules as S
+from .. import schedprop as SP
 from .. import simsched
 from ..case import s2b
 from ..gen import apps as A
@@ -285,56 +288,8 @@ FIXED = [
 
 
 def jobs(tier, seed):
-    js = []
-    for i in range(len(FIXED)):
-        js.append({"kind": "systematic", "index": i, "bound": 1 if tier == "quick" else 2, "max_runs": 1500 if tier == "quick" else 30000})
-    for i in range(len(FIXED)):
-        js.append({"kind": "fixed_random", "index": i, "n": 200 if tier == "quick" else 6000, "seed": derive_seed(seed, "c04f", i)})
-    n = 260 if tier == "quick" else 8000
-    for sh in range(10 if tier == "quick" else 16):
-        js.append({"kind": "hyp", "n": n, "seed": derive_seed(seed, "c04", sh)})
-    return js
+    return SP.jobs(sys.modules[__name__], tier, seed)
 
 
 def run_job(job, col):
-    if job["kind"] == "fixed_random":
-        base = FIXED[job["index"]]
-
-        def onef(spec):
-            case = dict(base, schedule=spec)
-            fs, nt, labels, trace, _s = run_case_full(case)
-            if fs and trace is not None:
-                case = dict(base, schedule=S.replay_spec(trace))
-            col.record(case, fs, nontrivial=nt, labels=set(labels) | {"fixed-scenario"})
-
-        hyp_run(S.schedule_strategy(), onef, job["n"], job["seed"])
-        return
-    if job["kind"] == "hyp":
-        def one(case):
-            try:
-                fs, nt, labels, trace, _s = run_case_full(case)
-            except C.CaseInvalid:
-                col.labels["outside-domain"] += 1
-                return
-            if fs and trace is not None:
-                case = dict(case, schedule=S.replay_spec(trace))
-            col.record(case, fs, nontrivial=nt, labels=labels)
-
-        hyp_run(case_strategy(), one, job["n"], job["seed"])
-    else:
-        base = FIXED[job["index"]]
-
-        def runner(src):
-            fs, nt, labels, trace, sched = run_case_full(base, source=src, record=True)
-            if sched is None:
-                class _S:
-                    trace, decisions, preemptions = [], [], 0
-                return _S, (fs, nt, labels)
-            return sched, (fs, nt, labels)
-
-        n = 0
-        for trace, (fs, nt, labels) in simsched.systematic(runner, job["bound"], job["max_runs"]):
-            n += 1
-            col.record(dict(base, schedule=S.replay_spec(trace)), fs, nontrivial=len(trace) > 0, labels=set(labels) | {"systematic"})
-        if n < job["max_runs"]:
-            col.exhaustive("every schedule with at most %d deviation(s) from the default scheduler, %d fixed scenarios (sync level)" % (job["bound"], len(FIXED)))
+    SP.run_job(sys.modules[__name__], job, col)
